@@ -29,7 +29,7 @@ T = {
  "C20": ("E-DS", "model_checking", DS, "list: 5 (7) nodes; heap: 5 nodes x all 243 key vectors over {0,1,2} (thorough: 6 nodes x 729 vectors, 7 nodes for four key vectors)", "exhaustive sequence enumeration to a fixpoint over structure shapes; structural validator + reference model"),
 }
 checks = []
-LOOM_PROPS = {"C01", "C02", "C03", "C04", "C07", "C05", "C06", "C08", "C09", "C10", "C11", "C12", "C13", "C14", "C15", "C16", "C17"}
+LOOM_PROPS = {"C01", "C02", "C03", "C04", "C07", "C05", "C06", "C08", "C09", "C10", "C11", "C12", "C13", "C14", "C15", "C16", "C17", "C18"}
 for p in props:
     i = p['id']
     eng, cat, text, note, tech = T[i]
@@ -59,7 +59,7 @@ m = {
   {"name": "E-SEQ", "path": "/verif/engine", "serves_properties": [c for c in T if T[c][0] == "E-SEQ"], "kind_free_text": "explicit-state BFS whose transition function is the real crate (state = replayed operation history), monitors per property"},
   {"name": "E-DS", "path": "/verif/engine/src/sys_ds.rs", "serves_properties": ["C19", "C20"], "kind_free_text": "exhaustive operation-sequence enumeration of ring buffers, intrusive list and pairing heap"},
   {"name": "E-TYPE", "path": "/verif/engine/src/bin/typematrix.rs", "serves_properties": ["C16"], "kind_free_text": "exhaustive compile-time trait-fact matrix + rule table (lib/typerules.py)"},
-  {"name": "E-LOOM", "path": "/verif/loomengine", "serves_properties": ["C01", "C02", "C03", "C04", "C05", "C06", "C07", "C08", "C09", "C10", "C11", "C12", "C13", "C14", "C15", "C16", "C17"], "kind_free_text": "loom (DPOR, preemption bound 2 quick; thorough: 3, then 4 or unbounded where that terminates) over the real generic code instantiated with a loom-backed RawMutex; handle counters of the shared channels are scheduling points through a cfg hook; a lost wake-up is a loom deadlock"},
+  {"name": "E-LOOM", "path": "/verif/loomengine", "serves_properties": ["C01", "C02", "C03", "C04", "C05", "C06", "C07", "C08", "C09", "C10", "C11", "C12", "C13", "C14", "C15", "C16", "C17", "C18"], "kind_free_text": "loom (DPOR, preemption bound 2 quick; thorough: 3, then 4 or unbounded where that terminates) over the real generic code instantiated with a loom-backed RawMutex; handle counters of the shared channels are scheduling points through a cfg hook; a lost wake-up is a loom deadlock"},
  ],
  "checks": checks,
  "not_applicable": [],
